@@ -473,6 +473,35 @@ func executeMust(cs Case, data any) (root any, panicked any) {
 	return
 }
 
+// interleavingExplains: the mutation operations select while they change (C13-K7). With a filter
+// that refers to $ the changes made for one parent can stop the filter from matching for the
+// next one. That, and only that, is accepted here: every selected location that was left as it
+// was is no longer selected when the path is evaluated on the outcome. (Remove from arrays
+// shifts the indices, so there the outcome can not be questioned location by location.)
+func interleavingExplains(cs Case, after any, S []jpx.Loc, op string) bool {
+	if op == "remove" {
+		for _, l := range S {
+			if len(l.Path) > 0 {
+				if _, isIndex := l.Path[len(l.Path)-1].(int); isIndex {
+					return true
+				}
+			}
+		}
+	}
+	still := map[string]bool{}
+	for _, l := range jpx.Eval(cs.Path, after).Locs {
+		still[pathKey(l.Path)] = true
+	}
+	for _, l := range S {
+		r := jpx.Eval(locPath(l.Path), after)
+		untouched := len(r.Locs) == 1 && canon.String(r.Locs[0].Val, canon.Value) == canon.String(l.Val, canon.Value)
+		if untouched && still[pathKey(l.Path)] {
+			return false
+		}
+	}
+	return true
+}
+
 // notExecuted: the case falls under the C13-K4 exclusion (see runWith).
 func notExecuted(cs Case) bool {
 	op, _ := baseOp(cs.Op)
@@ -583,6 +612,10 @@ func runWith(cs Case, c *vrt.Ctx, before any, res *jpx.Result, extraTag string, 
 		after = data
 	}
 	afterCanon := canon.String(after, canon.Value)
+	if reading == 0 && !one && res.Feat["filter-uses-root"] && o.err == nil && res.DontCare == "" && interleavingExplains(cs, after, S, op) {
+		tags = append(append([]string(nil), tags...), "explained-by-selection-on-changed-data")
+		sort.Strings(tags)
+	}
 
 	if res.DontCare != "" {
 		c.DontCare(res.DontCare)
@@ -1074,5 +1107,13 @@ var classifiers = []vrt.Classifier{
 	// filter evaluated for a node that a descent reaches later sees what was already changed
 	// (Del $..[?(@.x.b == @[-2].*)].* on {a:[0 {a:2} 0]} first deletes a[1].a, after which the
 	// filter matches a itself and all three elements are nulled, where Get selects a[1].a only).
-	{ID: "C13-K7", Match: func(d vrt.Disc, c *vrt.Ctx) bool { return has(d, "has:descent") && has(d, "has:filter") }},
+	{ID: "C13-K7", Match: func(d vrt.Disc, c *vrt.Ctx) bool {
+		if has(d, "has:descent") && has(d, "has:filter") {
+			return true
+		}
+		// without a descent: several parents and a filter that refers to $ - attributed only to
+		// outcomes in which locations were left out, each of which the filter no longer selects
+		// on the outcome (interleavingExplains)
+		return has(d, "explained-by-selection-on-changed-data") && d.Kind != "frame-broken" && d.Kind != "panic" && !strings.HasPrefix(d.Kind, "gen-") && !strings.HasPrefix(d.Kind, "user-") && !strings.HasPrefix(d.Kind, "must-")
+	}},
 }
